@@ -334,29 +334,39 @@ Fixpoint cstr (s : list N) : list N :=
 
 Record strtoll_res := { st_value : Z; st_noconv : bool; st_rest : list N; st_erange : bool }.
 
+(* "0x"/"0X" followed by a hex digit *)
 Definition has_hex_prefix (s : list N) : bool :=
   match s with
-  | 48 :: x :: h :: _ => ((x =? 120) || (x =? 88)) && (match digit_in 16 h with Some _ => true | None => false end)
+  | c0 :: x :: h :: _ => (c0 =? 48) && ((x =? 120) || (x =? 88)) && (match digit_in 16 h with Some _ => true | None => false end)
   | _ => false
+  end.
+
+(* LLONG_MIN / LLONG_MAX with errno = ERANGE when the exact value does not fit *)
+Definition strtoll_finish (neg : bool) (v : Z) (rest : list N) : strtoll_res :=
+  let sv := if neg then (- v)%Z else v in
+  if (sv <? INT64_MIN)%Z then {| st_value := INT64_MIN; st_noconv := false; st_rest := rest; st_erange := true |}
+  else if (INT64_MAX <? sv)%Z then {| st_value := INT64_MAX; st_noconv := false; st_rest := rest; st_erange := true |}
+  else {| st_value := sv; st_noconv := false; st_rest := rest; st_erange := false |}.
+
+(* after white space and sign: base detection, prefix, digits.  [s] is the original string (endp = nptr
+   when nothing is converted) *)
+Definition strtoll_body (neg : bool) (s s2 : list N) (base : Z) : strtoll_res :=
+  let '(b, s3) := if ((base =? 0) || (base =? 16))%Z && has_hex_prefix s2 then (16%Z, skipn 2 s2)
+                  else if (base =? 0)%Z then (match s2 with c :: _ => if c =? 48 then 8%Z else 10%Z | [] => 10%Z end, s2)
+                  else (base, s2) in
+  let '(v, n, rest) := take_digits b s3 0%Z O in
+  match n with
+  | O => {| st_value := 0; st_noconv := true; st_rest := s; st_erange := false |}
+  | Datatypes.S _ => strtoll_finish neg v rest
   end.
 
 Definition strtoll (s : list N) (base : Z) : strtoll_res :=
   let s1 := skip_space s in
-  let '(neg, s2) := match s1 with
-                    | 45 :: r => (true, r)
-                    | 43 :: r => (false, r)
-                    | _ => (false, s1)
-                    end in
-  let '(b, s3) := if ((base =? 0) || (base =? 16))%Z && has_hex_prefix s2 then (16%Z, skipn 2 s2)
-                  else if (base =? 0)%Z then (match s2 with 48 :: _ => 8%Z | _ => 10%Z end, s2)
-                  else (base, s2) in
-  let '(v, n, rest) := take_digits b s3 0%Z O in
-  match n with
-  | O => {| st_value := 0; st_noconv := true; st_rest := s; st_erange := false |}     (* endp = nptr *)
-  | _ => let sv := if neg then (- v)%Z else v in
-         if (sv <? INT64_MIN)%Z then {| st_value := INT64_MIN; st_noconv := false; st_rest := rest; st_erange := true |}
-         else if (INT64_MAX <? sv)%Z then {| st_value := INT64_MAX; st_noconv := false; st_rest := rest; st_erange := true |}
-         else {| st_value := sv; st_noconv := false; st_rest := rest; st_erange := false |}
+  match s1 with
+  | c :: r => if c =? 45 then strtoll_body true s r base
+              else if c =? 43 then strtoll_body false s r base
+              else strtoll_body false s s1 base
+  | [] => strtoll_body false s [] base
   end.
 
 (* string.c string_to_int: errno != 0, endp == s, *endp != '\0' are the three rejections *)
